@@ -233,6 +233,75 @@ func HarnessC13MultipleOfValidators() {
 	verifReach("end")
 }
 
+// HarnessC13HugeBounds: bounds beyond the range of the integer types (where a conversion of the
+// bound to int64 / uint64 overflows): the verdict must still be the one of the mathematical values.
+func HarnessC13HugeBounds() {
+	bounds := []float64{1e30, -1e30, 9.3e18, -9.3e18, 1.85e19, 1e19}
+	b := verifChoose(len(bounds))
+	bound := bounds[b]
+	isMax := verifBool()
+	excl := verifBool()
+	var val interface{}
+	var below bool // value < bound (never equal: no value of these kinds equals one of the bounds... except where computed)
+	var equal bool
+	switch verifChoose(4) {
+	case 0:
+		v := verifInt64()
+		val = v
+		below = b == 0 || b == 2 || b == 4 || b == 5 // every int64 is below the positive bounds, above the negative ones
+	case 1:
+		v := verifInt8()
+		val = v
+		below = b == 0 || b == 2 || b == 4 || b == 5
+	case 2:
+		v := verifUint64()
+		val = v
+		switch b {
+		case 0, 4:
+			below = true
+		case 1, 3:
+			below = false
+		case 2:
+			below = v < 9300000000000000000
+			equal = v == 9300000000000000000
+		default:
+			below = v < 10000000000000000000
+			equal = v == 10000000000000000000
+		}
+	default:
+		v := verifUint8()
+		val = v
+		below = b == 0 || b == 2 || b == 4 || b == 5
+	}
+	var want bool
+	switch {
+	case isMax && excl:
+		want = below
+	case isMax:
+		want = verifOr(below, equal)
+	case excl:
+		want = verifAnd(verifNot(below), verifNot(equal))
+	default:
+		want = verifNot(below)
+	}
+	var got bool
+	if isMax {
+		got = MaximumNativeType("p", "q", val, bound, excl) == nil
+	} else {
+		got = MinimumNativeType("p", "q", val, bound, excl) == nil
+	}
+	verifObserve("bound", bound)
+	verifAssert(got == want, "native-helper-is-exact-for-bounds-beyond-the-integer-range")
+	s := spec.Schema{}
+	if isMax {
+		s.Maximum, s.ExclusiveMaximum = &bound, excl
+	} else {
+		s.Minimum, s.ExclusiveMinimum = &bound, excl
+	}
+	verifAssert(NewSchemaValidator(&s, nil, "", nil).Validate(val).IsValid() == want, "schema-verdict-is-exact-for-bounds-beyond-the-integer-range")
+	verifReach("end")
+}
+
 // HarnessC13MultipleOfDecimal: multipleOf on decimal fractions with at most 6 fractional digits:
 // the verdict must be the one of exact arithmetic on the decimal values (here: on the numbers scaled
 // by 10^6), through the helper, schema validation and parameter validation.
